@@ -195,6 +195,374 @@ theorem no_capture_serial (gm : List Nat) (items : List Item) (ops : List Op) (s
   simp only [wsum] at hsum
   omega
 
+
+/-! ## The per-group limit -/
+
+/-- the weight a running future holds in group `g`: `min(threads-required, max-threads of g)` if it belongs to `g` -/
+def grw (gm : List Nat) (g : Nat) (r : Running) : Nat := if r.item.group = some g then min r.item.weight (gm.getD g 0) else 0
+
+def gsum (s : SState) (g : Nat) : Nat := (s.running.map (grw s.groupMax g)).sum
+
+/-- **The group limit**: for every test group, the accounted weight is exactly the sum over the alive members, and never
+    exceeds the group's max-threads. -/
+def GroupOk (s : SState) : Prop :=
+  s.gcur.length = s.groupMax.length ∧ ∀ g, s.gcur.getD g 0 = gsum s g ∧ s.gcur.getD g 0 ≤ s.groupMax.getD g 0
+
+theorem group_init_ok (maxW : Nat) (gm : List Nat) (items : List Item) : GroupOk (SState.init maxW gm items) := by
+  refine ⟨by simp [SState.init], ?_⟩
+  intro g
+  simp only [SState.init, gsum, List.map_nil, List.sum_nil]
+  have : (gm.map fun _ => 0).getD g 0 = 0 := by
+    simp only [List.getD_eq_getElem?_getD, List.getElem?_map]
+    cases gm[g]? <;> rfl
+  rw [this]; exact ⟨rfl, Nat.zero_le _⟩
+
+private theorem getD_setAt {α} (l : List α) (i j : Nat) (v d : α) :
+    (setAt l i v).getD j d = if i = j ∧ i < l.length then v else l.getD j d := by
+  simp only [setAt, List.getD_eq_getElem?_getD, List.getElem?_set]
+  by_cases h : i = j
+  · subst h
+    by_cases hl : i < l.length
+    · simp [hl]
+    · simp [hl]
+  · simp [h]
+
+/-- an item parked in group `g`'s queue belongs to group `g` -/
+def QueuesOk (s : SState) : Prop := ∀ g, ∀ it ∈ s.queues.getD g [], it.group = some g
+
+theorem queues_init_ok (maxW : Nat) (gm : List Nat) (items : List Item) : QueuesOk (SState.init maxW gm items) := by
+  intro g it hit
+  have : (gm.map fun _ => ([] : List Item)).getD g [] = [] := by
+    simp only [List.getD_eq_getElem?_getD, List.getElem?_map]
+    cases gm[g]? <;> rfl
+  simp only [SState.init] at hit
+  rw [this] at hit; cases hit
+
+private theorem gok_congr (s t : SState) (h1 : t.gcur = s.gcur) (h2 : t.running = s.running) (h3 : t.groupMax = s.groupMax)
+    (h : GroupOk s) : GroupOk t := by
+  unfold GroupOk gsum at *
+  rw [h1, h2, h3]; exact h
+
+private theorem start_gfacts (s : SState) (it : Item) :
+    (s.start it).1.groupMax = s.groupMax ∧ (s.start it).1.running = s.running ++ [(s.start it).2] ∧ (s.start it).2.item = it ∧
+    (s.start it).1.gcur = (match it.group with
+      | none => s.gcur
+      | some g => setAt s.gcur g (s.gcur.getD g 0 + min it.weight (s.groupMax.getD g 0))) ∧
+    (s.start it).1.queues = s.queues := by
+  unfold SState.start
+  cases it.group <;> simp
+
+private theorem start_gok (s : SState) (it : Item) (h : GroupOk s)
+    (hs : ∀ g, it.group = some g → hasSpace (s.gcur.getD g 0) (s.groupMax.getD g 0) it.weight = true) :
+    GroupOk (s.start it).1 := by
+  obtain ⟨f1, f2, f3, f4, _⟩ := start_gfacts s it
+  obtain ⟨hlen, hall⟩ := h
+  refine ⟨?_, ?_⟩
+  · rw [f1, f4]; cases it.group <;> simp [setAt, hlen]
+  · intro g
+    obtain ⟨h1, h2⟩ := hall g
+    have hsum : gsum (s.start it).1 g = gsum s g + (if it.group = some g then min it.weight (s.groupMax.getD g 0) else 0) := by
+      simp only [gsum, f1, f2, List.map_append, List.sum_append, List.map_cons, List.map_nil, List.sum_cons, List.sum_nil, grw, f3, Nat.add_zero]
+    rw [hsum, f1, f4]
+    cases hg : it.group with
+    | none => simp only [reduceCtorEq, if_false, Nat.add_zero]; exact ⟨h1, h2⟩
+    | some g' =>
+      simp only [getD_setAt]
+      by_cases hgg : g' = g
+      · subst hgg
+        have hsp := hasSpace_le (hs g' hg)
+        simp only [if_true]
+        by_cases hl : g' < s.gcur.length
+        · simp only [hl, and_self, if_true]
+          exact ⟨by rw [h1], by omega⟩
+        · -- out of range: the group has max-threads 0 and nothing is ever accounted
+          have hz : s.groupMax.getD g' 0 = 0 := by
+            simp only [List.getD_eq_getElem?_getD]
+            rw [List.getElem?_eq_none (by omega)]; rfl
+          simp only [hl, and_false, if_false]
+          exact ⟨by rw [h1, hz]; simp, h2⟩
+      · have hne : ¬ some g' = some g := by intro e; exact hgg (Option.some.inj e)
+        simp only [hgg, false_and, if_false, hne, Nat.add_zero]
+        exact ⟨h1, h2⟩
+
+private theorem pull_gok (fuel : Nat) : ∀ (s : SState), GroupOk s → QueuesOk s →
+    GroupOk (s.pull fuel).1 ∧ QueuesOk (s.pull fuel).1 := by
+  induction fuel with
+  | zero => intro s h hq; exact ⟨h, hq⟩
+  | succ f ih =>
+    intro s h hq
+    simp only [SState.pull]
+    split
+    · exact ⟨h, hq⟩
+    · rename_i it rest hp
+      split
+      · exact ⟨h, hq⟩
+      · have hs1 : GroupOk { s with pending := rest } := gok_congr s _ rfl rfl rfl h
+        have hq1 : QueuesOk { s with pending := rest } := hq
+        have hqstart : ∀ (t : SState) (x : Item), QueuesOk t → QueuesOk (t.start x).1 := by
+          intro t x ht; unfold QueuesOk; rw [(start_gfacts t x).2.2.2.2]; exact ht
+        split
+        · rename_i hg
+          exact ih _ (start_gok { s with pending := rest } it hs1 (by intro g hg'; rw [hg] at hg'; cases hg')) (hqstart _ _ hq1)
+        · rename_i g hg
+          split
+          · rename_i hsp
+            exact ih _ (start_gok { s with pending := rest } it hs1 (by intro g' hg'; rw [hg] at hg'; cases hg'; exact hsp)) (hqstart _ _ hq1)
+          · refine ih _ (gok_congr s _ rfl rfl rfl h) ?_
+            intro g' x hx
+            simp only [getD_setAt] at hx
+            split at hx
+            · rename_i hc
+              rcases List.mem_append.mp hx with hx | hx
+              · rw [← hc.1]; exact hq g x hx
+              · simp at hx; subst hx; rw [← hc.1]; exact hg
+            · exact hq g' x hx
+
+private theorem drain_gok (g : Nat) (fuel : Nat) : ∀ (s : SState), GroupOk s → QueuesOk s →
+    GroupOk (s.drainGroup g fuel).1 ∧ QueuesOk (s.drainGroup g fuel).1 := by
+  induction fuel with
+  | zero => intro s h hq; exact ⟨h, hq⟩
+  | succ f ih =>
+    intro s h hq
+    simp only [SState.drainGroup]
+    split
+    · exact ⟨h, hq⟩
+    · rename_i it rest hqg
+      split
+      · rename_i hsp
+        simp only [Bool.and_eq_true] at hsp
+        have hs1 : GroupOk { s with queues := setAt s.queues g rest } := gok_congr s _ rfl rfl rfl h
+        have hitg : it.group = some g := hq g it (by rw [hqg]; simp)
+        have hq1 : QueuesOk { s with queues := setAt s.queues g rest } := by
+          intro g' x hx
+          simp only [getD_setAt] at hx
+          split at hx
+          · rename_i hc; rw [← hc.1]; exact hq g x (by rw [hqg]; simp [hx])
+          · exact hq g' x hx
+        have hq2 : QueuesOk ({ s with queues := setAt s.queues g rest }.start it).1 := by
+          unfold QueuesOk; rw [(start_gfacts _ it).2.2.2.2]; exact hq1
+        refine ih _ (start_gok { s with queues := setAt s.queues g rest } it hs1 ?_) hq2
+        intro g' hg'
+        rw [hitg] at hg'; cases hg'; exact hsp.2
+      · exact ⟨h, hq⟩
+
+private theorem gsum_eraseP (s : SState) (p : Running → Bool) (g : Nat) (x : Running) (h : s.running.find? p = some x) :
+    (s.running.map (grw s.groupMax g)).sum = ((s.running.eraseP p).map (grw s.groupMax g)).sum + grw s.groupMax g x :=
+  sum_eraseP s.running p (grw s.groupMax g) x h
+
+/-- a running future remembers its group slot iff it has a group (how `start` creates it) -/
+def RunningOk (s : SState) : Prop := ∀ r ∈ s.running, (r.item.group.isSome = r.groupSlot.isSome)
+
+/-- **For every test group, the sum of threads-required of its alive members (each capped at the group's max-threads) is at most
+    max-threads** — preserved by every operation, together with the two bookkeeping invariants it needs -/
+theorem group_weight_step (s : SState) (op : Op) (s' : SState) (started : List Running)
+    (h : GroupOk s) (hq : QueuesOk s) (hr : RunningOk s) (hstep : s.step op = some (s', started)) :
+    GroupOk s' ∧ QueuesOk s' := by
+  cases op with
+  | poll =>
+    simp only [SState.step, SState.first, Option.some.injEq] at hstep
+    have := pull_gok (s.pending.length + 1) s h hq
+    rw [hstep] at this; exact this
+  | complete id =>
+    simp only [SState.step, SState.complete] at hstep
+    split at hstep
+    · cases hstep
+    · rename_i r hfind
+      simp only [Option.some.injEq, Prod.mk.injEq] at hstep
+      obtain ⟨hs, _⟩ := hstep
+      rw [← hs]
+      have hmem : r ∈ s.running := List.mem_of_find?_eq_some hfind
+      have hrg := hr r hmem
+      obtain ⟨hlen, hall⟩ := h
+      split
+      · rename_i g gsl hg hgs
+        -- the completed future belonged to group g: its weight is released there
+        have hrem : GroupOk { s with running := s.running.eraseP (fun x => x.item.id == id),
+                                     cur := s.cur - min r.item.weight s.maxW, slots := s.slots.release r.globalSlot,
+                                     gcur := setAt s.gcur g (s.gcur.getD g 0 - min r.item.weight (s.groupMax.getD g 0)),
+                                     gslots := setAt s.gslots g ((s.gslots.getD g {}).release gsl) } := by
+          refine ⟨by simp [setAt, hlen], ?_⟩
+          intro g'
+          obtain ⟨h1, h2⟩ := hall g'
+          have hsum := gsum_eraseP s (fun x => x.item.id == id) g' r hfind
+          simp only [gsum] at h1 ⊢
+          simp only [getD_setAt]
+          by_cases hgg : g = g'
+          · subst hgg
+            have hgr : grw s.groupMax g r = min r.item.weight (s.groupMax.getD g 0) := by simp [grw, hg]
+            by_cases hl : g < s.gcur.length
+            · simp only [hl, and_self, if_true]
+              exact ⟨by omega, by omega⟩
+            · have hz : s.groupMax.getD g 0 = 0 := by
+                simp only [List.getD_eq_getElem?_getD]
+                rw [List.getElem?_eq_none (by omega)]; rfl
+              simp only [hl, and_false, if_false]
+              rw [hgr, hz] at hsum
+              exact ⟨by simp at hsum; omega, h2⟩
+          · have hgr : grw s.groupMax g' r = 0 := by
+              have : ¬ r.item.group = some g' := by rw [hg]; intro e; exact hgg (Option.some.inj e)
+              simp [grw, this]
+            simp only [hgg, false_and, if_false]
+            exact ⟨by omega, h2⟩
+        have hq' : QueuesOk { s with running := s.running.eraseP (fun x => x.item.id == id),
+                                     cur := s.cur - min r.item.weight s.maxW, slots := s.slots.release r.globalSlot,
+                                     gcur := setAt s.gcur g (s.gcur.getD g 0 - min r.item.weight (s.groupMax.getD g 0)),
+                                     gslots := setAt s.gslots g ((s.gslots.getD g {}).release gsl) } := hq
+        have hd := drain_gok g ((s.queues.getD g []).length + 1) _ hrem hq'
+        exact pull_gok _ _ hd.1 hd.2
+      · rename_i hnot
+        -- no group (a grouped future always carries a group slot): nothing is accounted in any group
+        have hng : r.item.group = none := by
+          cases hgo : r.item.group with
+          | none => rfl
+          | some g =>
+            cases hso : r.groupSlot with
+            | none => rw [hgo, hso] at hrg; simp at hrg
+            | some gs => exact (hnot g gs hgo hso).elim
+        have hrem : GroupOk { s with running := s.running.eraseP (fun x => x.item.id == id),
+                                     cur := s.cur - min r.item.weight s.maxW, slots := s.slots.release r.globalSlot } := by
+          refine ⟨hlen, ?_⟩
+          intro g'
+          obtain ⟨h1, h2⟩ := hall g'
+          have hsum := gsum_eraseP s (fun x => x.item.id == id) g' r hfind
+          have hgr : grw s.groupMax g' r = 0 := by simp [grw, hng]
+          simp only [gsum] at h1 ⊢
+          exact ⟨by omega, h2⟩
+        exact pull_gok _ _ hrem hq
+
+private theorem start_rok (s : SState) (it : Item) (h : RunningOk s) : RunningOk (s.start it).1 := by
+  intro r hr
+  have hrun : (s.start it).1.running = s.running ++ [(s.start it).2] := (start_gfacts s it).2.1
+  rw [hrun] at hr
+  rcases List.mem_append.mp hr with hr | hr
+  · exact h r hr
+  · simp only [List.mem_singleton] at hr; subst hr
+    unfold SState.start
+    cases hg : it.group <;> simp [hg]
+
+private theorem pull_rok (fuel : Nat) : ∀ (s : SState), RunningOk s → RunningOk (s.pull fuel).1 := by
+  induction fuel with
+  | zero => intro s h; exact h
+  | succ f ih =>
+    intro s h
+    simp only [SState.pull]
+    split
+    · exact h
+    · split
+      · exact h
+      · split
+        · exact ih _ (start_rok _ _ h)
+        · split
+          · exact ih _ (start_rok _ _ h)
+          · exact ih _ h
+
+private theorem drain_rok (g : Nat) (fuel : Nat) : ∀ (s : SState), RunningOk s → RunningOk (s.drainGroup g fuel).1 := by
+  induction fuel with
+  | zero => intro s h; exact h
+  | succ f ih =>
+    intro s h
+    simp only [SState.drainGroup]
+    split
+    · exact h
+    · split
+      · exact ih _ (start_rok _ _ h)
+      · exact h
+
+theorem running_ok_step (s : SState) (op : Op) (s' : SState) (started : List Running)
+    (hr : RunningOk s) (hstep : s.step op = some (s', started)) : RunningOk s' := by
+  cases op with
+  | poll =>
+    simp only [SState.step, SState.first, Option.some.injEq] at hstep
+    have := pull_rok (s.pending.length + 1) s hr
+    rw [hstep] at this; exact this
+  | complete id =>
+    simp only [SState.step, SState.complete] at hstep
+    split at hstep
+    · cases hstep
+    · rename_i r hfind
+      simp only [Option.some.injEq, Prod.mk.injEq] at hstep
+      obtain ⟨hs, _⟩ := hstep
+      rw [← hs]
+      have herase : ∀ x ∈ s.running.eraseP (fun x => x.item.id == id), x.item.group.isSome = x.groupSlot.isSome :=
+        fun x hx => hr x (List.mem_of_mem_eraseP hx)
+      split
+      · exact pull_rok _ _ (drain_rok _ _ _ herase)
+      · exact pull_rok _ _ herase
+
+private theorem groupMax_step (s : SState) (op : Op) (s' : SState) (started : List Running)
+    (hstep : s.step op = some (s', started)) : s'.groupMax = s.groupMax := by
+  have hstart : ∀ (t : SState) (x : Item), (t.start x).1.groupMax = t.groupMax := fun t x => (start_gfacts t x).1
+  have hpull : ∀ fuel (t : SState), (t.pull fuel).1.groupMax = t.groupMax := by
+    intro fuel
+    induction fuel with
+    | zero => intro t; rfl
+    | succ f ih =>
+      intro t
+      simp only [SState.pull]
+      split
+      · rfl
+      · split
+        · rfl
+        · split
+          · rw [ih, hstart]
+          · split
+            · rw [ih, hstart]
+            · rw [ih]
+  have hdrain : ∀ g fuel (t : SState), (t.drainGroup g fuel).1.groupMax = t.groupMax := by
+    intro g fuel
+    induction fuel with
+    | zero => intro t; rfl
+    | succ f ih =>
+      intro t
+      simp only [SState.drainGroup]
+      split
+      · rfl
+      · split
+        · rw [ih, hstart]
+        · rfl
+  cases op with
+  | poll =>
+    simp only [SState.step, SState.first, Option.some.injEq] at hstep
+    have := hpull (s.pending.length + 1) s
+    rw [hstep] at this; exact this
+  | complete id =>
+    simp only [SState.step, SState.complete] at hstep
+    split at hstep
+    · cases hstep
+    · simp only [Option.some.injEq, Prod.mk.injEq] at hstep
+      obtain ⟨hs, _⟩ := hstep
+      rw [← hs]
+      split
+      · rw [hpull, hdrain]
+      · rw [hpull]
+
+/-- …hence in every reachable state, for every item list, every weight/group assignment and every completion order, and for
+    every test group `g`: Σ min(threads-required, max-threads of g) over the alive members of `g` ≤ max-threads of `g`. -/
+theorem group_weight_inv (maxW : Nat) (gm : List Nat) (items : List Item) (ops : List Op) (s' : SState)
+    (h : runOps (SState.init maxW gm items) ops = some s') (g : Nat) :
+    gsum s' g ≤ gm.getD g 0 ∧ s'.groupMax = gm := by
+  suffices hgen : ∀ (ops : List Op) (s : SState), GroupOk s → QueuesOk s → RunningOk s → s.groupMax = gm → runOps s ops = some s' →
+      GroupOk s' ∧ s'.groupMax = gm by
+    have := hgen ops _ (group_init_ok maxW gm items) (queues_init_ok maxW gm items) (by intro r hr; simp [SState.init] at hr) rfl h
+    obtain ⟨⟨_, hall⟩, hgm⟩ := this
+    obtain ⟨h1, h2⟩ := hall g
+    rw [← hgm]; exact ⟨by omega, rfl⟩
+  intro ops
+  induction ops with
+  | nil => intro s hs _ _ hm h; simp [runOps] at h; subst h; exact ⟨hs, hm⟩
+  | cons o os ih =>
+    intro s hs hq hr hm h
+    simp only [runOps] at h
+    split at h
+    · cases h
+    · rename_i s1 st hstep
+      have hg := group_weight_step s o s1 st hs hq hr hstep
+      exact ih s1 hg.1 hg.2 (running_ok_step s o s1 st hr hstep) (by rw [groupMax_step s o s1 st hstep, hm]) h
+
+-- non-vacuity: group 0 (max-threads 2) with members of weight 3 (capped to 2) and 1; 4 test threads
+example : ∃ s', runOps (SState.init 4 [2] [⟨0, 3, some 0⟩, ⟨1, 1, some 0⟩, ⟨2, 1, none⟩]) [.poll] = some s' ∧
+    gsum s' 0 = 2 ∧ s'.running.length = 2 := ⟨_, rfl, by decide, by decide⟩
+
 /-! ## Dispatch order: descending priority, then (binary id, test name) -/
 
 open NextestModel.Priority in
